@@ -218,7 +218,7 @@ Definition note_paths (c : case) : list path := map l_path (load (c_tree c)).
 (* the bytes the export holds for the note read from path q *)
 Definition new_bytes (c : case) (q : path) : option bytes :=
   match find (fun l => seqb (l_path l) q) (load (c_tree c)) with
-  | Some l => lookup (key_from_file_name (l_key l)) (c_export c)
+  | Some l => lookup (key_name (l_key l)) (c_export c)
   | None => None
   end.
 
@@ -281,8 +281,8 @@ Definition run (c : case) : verdict :=
     (* 2: loader: observed (key, content) pairs come from the model's, every model key is observed *)
     flag 2 (subset pair_eqb (c_loaded c) (map (fun l => (l_key l, l_content l)) (load t)) &&
             subset seqb (map l_key (load t)) (map fst (c_loaded c)) &&
-            (irregular t || Nat.eqb (length (c_loaded c)) (length (load t)))) ++
-    (* 3: exported keys = the distinct loaded keys after Key::from_file_name *)
+            Nat.eqb (length (c_loaded c)) (length (load t))) ++
+    (* 3: exported keys = the distinct loaded keys (Key::name) *)
     flag 3 (set_eqb seqb (map fst (c_export c)) (written_keys t)) ++
     (* 4: the clean run's operations are normalize_ops (repaired shape) in some order *)
     flag 4 (clean_shape c) ++
@@ -298,10 +298,10 @@ Definition run (c : case) : verdict :=
     flag 1 (p_in_place c) ++ flag 2 (p_nothing_else c) ++
     flag 3 (p_atomic c) ++ flag 4 (p_no_strangers c) in
   let cls :=
-    (if truncates_in_place c then [1] else []) ++
-    (if irregular t then [2] else []) in
+    (* (class 2, a loaded file named like `x.md.md`, is repaired: F14-double-md) *)
+    (if truncates_in_place c then [1] else []) in
   let nontriv :=
     Nat.leb 2 (length (load t)) && Nat.ltb (length (load t)) (length s0) &&
     existsb (fun l => contains_char SEP (l_key l)) (load t) &&
-    Nat.leb 3 (length (c_faults c)) && negb (irregular t) in
+    Nat.leb 3 (length (c_faults c)) in
   V corr prop cls nontriv.
